@@ -5,6 +5,7 @@ package stack
 import (
 	"go/parser"
 	"go/token"
+	"regexp"
 )
 
 // Hooks for the verification harness under /verif. They only give access to
@@ -85,4 +86,23 @@ func VerifFuncTypes(src []byte, fn string, line int) (found bool, declName strin
 	}
 	types, ellipsis = extractArgumentsType(d)
 	return true, d.Name.Name, int(d.Pos()), types, ellipsis, nil
+}
+
+// VerifRegexps returns the regular expressions of the line grammar, by the
+// name of their variable.
+func VerifRegexps() map[string]*regexp.Regexp {
+	return map[string]*regexp.Regexp{
+		"reRoutineHeader":               reRoutineHeader,
+		"reMinutes":                     reMinutes,
+		"reUnavail":                     reUnavail,
+		"reFile":                        reFile,
+		"reCreated":                     reCreated,
+		"reFunc":                        reFunc,
+		"reRaceOperationHeader":         reRaceOperationHeader,
+		"reRacePreviousOperationHeader": reRacePreviousOperationHeader,
+		"reRaceGoroutine":               reRaceGoroutine,
+		"reModule":                      reModule,
+		"reMethodSymbol":                reMethodSymbol,
+		"reVersion":                     reVersion,
+	}
 }
